@@ -201,7 +201,7 @@ Print Assumptions C03_strong_eventually.
    bind an empty name). *)
 Theorem C03_panic_only_overflow :
   forall (fuel : nat) (t : strong_task),
-    st_repr t = ReprTauStar -> program_vars_named (st_left t) -> program_vars_named (st_right t) ->
+    program_vars_named (st_left t) -> program_vars_named (st_right t) ->
     strong_decompose_full_fuel fuel t = SPanic ->
     ~ no_global_overflow (st_left t) \/ ~ no_global_overflow (st_right t).
 Proof. exact strong_panic_only_overflow. Qed.
@@ -209,7 +209,7 @@ Print Assumptions C03_panic_only_overflow.
 
 Theorem C03_panic_iff_overflow :
   forall (fuel : nat) (t : strong_task),
-    st_repr t = ReprTauStar -> program_vars_named (st_left t) -> program_vars_named (st_right t) ->
+    program_vars_named (st_left t) -> program_vars_named (st_right t) ->
     (strong_decompose_full_fuel fuel t = SPanic <->
      ~ no_global_overflow (st_left t) \/ ~ no_global_overflow (st_right t)).
 Proof. exact strong_panic_iff_overflow. Qed.
@@ -217,25 +217,25 @@ Print Assumptions C03_panic_iff_overflow.
 
 (* TOTALITY WITH --simplify (the counterpart of C03_full_total_nosimplify; audit A8 "no totality
    theorem for st_simplify = true"): outside the overflow class every sufficiently large fuel
-   returns the same list of problems *)
+   returns the same list of problems - both representations, every flag *)
 Theorem C03_full_total :
   forall t : strong_task,
-    st_repr t = ReprTauStar -> program_vars_named (st_left t) -> program_vars_named (st_right t) ->
+    program_vars_named (st_left t) -> program_vars_named (st_right t) ->
     no_global_overflow (st_left t) -> no_global_overflow (st_right t) ->
     exists n pbs, forall m, n <= m -> strong_decompose_full_fuel m t = SOk pbs.
 Proof. exact strong_total_outside_overflow. Qed.
 Print Assumptions C03_full_total.
 
-(* mu representation: the same, with the parser image of the natural translation as an explicit
-   hypothesis ([repr_image t P]: every formula of mu(P) has >= 1 guard per comparison and non-empty
-   bound names) - NOT proved for Model/Natural.v, hence _partial *)
-Theorem C03_panic_only_overflow_partial :
+(* the generic form: whatever representation step delivers parser-image formulas ([repr_image t P]:
+   every formula of the representation of P has >= 1 guard per comparison and non-empty bound
+   names); instantiated above by tau_star_pi (tau-star) and mu_full_pi (mu, Proofs/ParserImageNatural.v) *)
+Theorem C03_panic_only_overflow_generic :
   forall (fuel : nat) (t : strong_task),
     repr_image t (st_left t) -> repr_image t (st_right t) ->
     strong_decompose_full_fuel fuel t = SPanic ->
     ~ no_global_overflow (st_left t) \/ ~ no_global_overflow (st_right t).
 Proof. exact strong_panic_only_overflow_partial. Qed.
-Print Assumptions C03_panic_only_overflow_partial.
+Print Assumptions C03_panic_only_overflow_generic.
 
 (* ---------- non-vacuity ---------- *)
 (* (1) the model computes, inside Coq, exactly what the CLI prints.
